@@ -11,6 +11,8 @@ PROP = dict(
     level="exploration",
     stages=[
         dict(name="c11_text", src="harness/c11_text.cc", env={"ASAN_OPTIONS": ASAN_OPTIONS}, shards_quick=8, shards_thorough=16, timeout_quick=400, timeout_thorough=1500),
+        dict(name="c11_py", kind="pydriver", driver="oracle/c11_text.py", shim="shim/c11_shim.cc", deps=["shim/shim.hh"],
+             shards_quick=8, shards_thorough=16, timeout_quick=400, timeout_thorough=1500),
     ],
     rule="",
     assumptions=[],
